@@ -1,6 +1,43 @@
+/-
+  Props.C13 — series IDs are unique, stable and never reused (tsdb series file).
+-/
+import Influx.Lemmas.C13Torn
 import Influx.Model.C13
 import Influx.Spec.C13
 
 namespace Influx.Props.C13
+open Influx.SF Influx.C13 Influx.Spec.C13
+
+/-! ## The segment, byte level -/
+
+/-- **Round trip**: what `AppendSeriesEntry` appended (insert entries with a key of at most 127
+    bytes after its length prefix, tombstones) is exactly what `ForEachEntry` reads back, for
+    any number of entries: ids, keys and offsets. -/
+theorem segment_roundtrip (es : List Entry) (h : Chain hdrSize es) : entries (fileOf es) = es :=
+  entries_fileOf es h
+
+/-- **Crash during a create (DESIGN §6 F5), decided**: the segment holds `es`; the append of
+    the insert entry `e` is cut after `c` bytes, the rest reads as zero (pre-allocated file).
+    For EVERY cut:
+    * up to 9 bytes (flag and a possibly incomplete id, no key): the segment reads back as `es`
+      — the torn entry is invisible, in particular no entry with a garbage id appears (this
+      is what fixes/C13-torn-entry-empty-key.patch establishes; before it a valid-looking
+      entry with id `id & ~(2^(8·(9-c)) - 1)` and key "\x00" was indexed);
+    * more than 9 bytes: `es` unchanged, plus ONE entry with the new id `e.id`, the right
+      offset and a key of the right length (the zero-padded prefix; the key itself when
+      nothing was lost).
+    So no acknowledged (key, id) entry of the segment is ever altered by a torn create. -/
+theorem C13_crash_segment (es : List Entry) (e : Entry) (hch : Chain hdrSize (es ++ [e]))
+    (hf : e.flag = insertFlag) (c : Nat) :
+    let g := tear (fileOf es ++ e.bytes) ((fileOf es).length + c) ((fileOf es).length + e.bytes.length)
+    (c ≤ 9 → entries g = es) ∧
+    (9 < c → ∃ key', key'.length = e.key.length ∧ (e.bytes.length ≤ c → key' = e.key) ∧
+      entries g = es ++ [{ e with key := key' }]) :=
+  entries_torn es e hch hf c
+
+-- the hypotheses are met by a non-trivial segment
+example : Chain hdrSize ([⟨1, 1, [3, 0, 1, 97], 5⟩, ⟨2, 1, [], 18⟩] ++ [⟨1, 9, [3, 0, 1, 98], 27⟩]) := by
+  refine ⟨rfl, ⟨by decide, Or.inl ⟨rfl, [0, 1, 97], rfl, by decide, by decide⟩⟩, rfl,
+    ⟨by decide, Or.inr ⟨rfl, rfl⟩⟩, rfl, ⟨by decide, Or.inl ⟨rfl, [0, 1, 98], rfl, by decide, by decide⟩⟩, trivial⟩
 
 end Influx.Props.C13
